@@ -9,6 +9,7 @@ CONSTANTS
   Ops = {1, 2}
   MaxInFlight = 3
   AuctionImpl = "pinned"
+  Resolution = "locked"
   MaxRounds = 0
 INVARIANTS TypeOKC12 KeepsLastGood FallbackWhenNone AnswersRight LockBalanced
 CHECK_DEADLOCK FALSE
